@@ -12,7 +12,8 @@ any surviving subset of files, truncated meta.json / CRC sidecar); an interrupte
 `recCrash … cut` for ANY `cut : RecCut`. SQLite is the parameter `c.A` with the laws
 `DbLaws` (re-checkpointing the same WAL is a no-op; the zero-length WAL is a no-op).
 -/
-import RqModel.Lemmas.SnapFS
+import RqModel.Lemmas.SnapFSFields
+import RqModel.Lemmas.SnapFSRemoveOnly
 import RqModel.Gen.PlanShapes
 namespace C07
 open RqModel.SnapFS
@@ -53,6 +54,45 @@ theorem reap_crash_safe {c : Ctx D} {s0 : FS D} {dw0 : Option Nat} (w : WF c s0 
       subst hx
       exact Or.inl rfl
 
+/-- The remove-only reap (the newest full snapshot has no WALs and nothing after it; older
+snapshots exist): the same statement. The full snapshot is never touched; whatever point the
+removal of the older directories is interrupted at, the next start finishes it. -/
+theorem reap_crash_safe_remove_only {c : Ctx D} {s0 : FS D} {dw0 : Option Nat} (w : WF c s0 dw0)
+    (o : RmOnly c) (hcrc : c.full.crc.isSome) (hmem : c.full.name ∈ c.names)
+    (cut : ReapCut) (cuts : List RecCut) :
+    ∃ s3 snaps3,
+      check c.A (cuts.foldl (recCrash c.A) (reapCrash c.A s0 c.newName c.verify cut)) = .ok s3 ∧
+      scan s3 = .ok snaps3 ∧
+      observe c.A snaps3 = observe c.A c.snaps ∧
+      s3.plan = none ∧ s3.planTmp = false ∧
+      (∀ n d, s3.dir n = some d → d.tmp = false) := by
+  have g := w.good
+  have hreach := foldl_recCrash_reach1 g o cuts (reapCrash_reach1 w o cut)
+  have htmp : ∀ p n d, (mk c noOth p none false).dir n = some d → d.tmp = false := by
+    intro p n d hd
+    rcases mkDir_cases c p n with h | ⟨_, h2⟩
+    · have : (mk c noOth p none false).dir n = none := h noOth
+      rw [this] at hd; cases hd
+    · exact h2 noOth d hd
+  have hobs : observe c.A c.snaps = some (c.full.mt.index, c.full.mt.term, some c.d0) := by
+    rw [observe_snaps w.fullDb w.newersInc]
+    simp [Ctx.newest, o.noNewers, rmOnly_dF o]
+  rcases check_reach1 g o hreach with hc | hc
+  · obtain ⟨x, hx, hmt, hdb, hw⟩ := scan_final1 g o hcrc w.fullDb hmem w.good.namesNodup dw0
+    refine ⟨_, [x], hc, hx, ?_, rfl, rfl, htmp _⟩
+    rw [hobs]
+    simp [observe, resolveNewest, resolveRev, hmt, hdb, hw]
+  · refine ⟨_, c.snaps, hc, ?_, rfl, rfl, rfl, htmp _⟩
+    rw [← rmOnly_p0 o]
+    exact scan_p0 w
+
+/-- When there is nothing to reap (a single snapshot, an empty store, …) a reap interrupted
+anywhere has not changed anything but possibly left REAP_PLAN.tmp. -/
+theorem reap_nothing_to_do (A : DbAlg D) (s0 : FS D) (newName : Nat) (verify : Bool) (snaps : List (Snap D))
+    (hs : scan s0 = .ok snaps) (hp : mkReapPlan snaps newName verify = .ok none) (cut : ReapCut) :
+    reapCrash A s0 newName verify cut = s0 := by
+  simp [reapCrash, hs, hp]
+
 /-- Re-running the plan from ANY state a crash can leave (short of the final rename, after
 which `LastOpDone` skips execution) gives the same final state as an uninterrupted run:
 every operation is idempotent in the context of the plan. -/
@@ -67,135 +107,8 @@ theorem reap_again_noop {c : Ctx D} (g : Good c) (dw : Option Nat) (newName' : N
   have h1 : (mk c noOth (.renamed dw) none false).plan = none := rfl
   simp [reap, h1, scan_final g dw, mkReapPlan, splitLastFull, finalSnap]
 
-theorem execOp_plan_field (A : DbAlg D) (s s' : FS D) (o : Op) (h : execOp A s o = .ok s') :
-    s'.plan = s.plan := by
-  cases o with
-  | checkpoint n ws =>
-    simp only [execOp, execCheckpoint] at h
-    have hrm : ∀ t t', ckptRemove A t n = .ok t' → t'.plan = t.plan := by
-      intro t t' ht
-      unfold ckptRemove at ht
-      split at ht
-      · split at ht
-        · cases ht; rfl
-        · cases ht
-        · cases ht; rfl
-      · cases ht
-    have hmv : ∀ (t : FS D) (q : Nat × Nat), (moveWal t q n).plan = t.plan := fun t q => (moveWal_fields t q n).2.1
-    have hloop : ∀ l t t', ckptLoop A n l t = .ok t' → t'.plan = t.plan := by
-      intro l
-      induction l with
-      | nil => intro t t' ht; cases ht; rfl
-      | cons q l ih =>
-        intro t t' ht
-        simp only [ckptLoop] at ht
-        cases h1 : ckptRemove A (moveWal t q n) n with
-        | error e => rw [h1] at ht; cases ht
-        | ok t1 =>
-          rw [h1] at ht
-          rw [ih t1 t' ht, hrm _ _ h1, hmv]
-    split at h
-    · cases h
-    · rename_i s1 hs1
-      have e1 : s1.plan = s.plan := by
-        split at hs1
-        · exact hrm _ _ hs1
-        · cases hs1; rfl
-      split at h
-      · cases h; exact e1
-      · split at h
-        · cases h
-        · rw [hloop _ _ _ h, e1]
-  | calcCrc n =>
-    simp only [execOp] at h
-    split at h
-    · split at h
-      · cases h; rfl
-      · cases h
-    · cases h
-  | removeAll n => cases h; rfl
-  | writeMeta n m =>
-    simp only [execOp, FS.modify] at h
-    cases h
-    split <;> rfl
-  | verifyDb n =>
-    simp only [execOp, FS.modify] at h
-    split at h
-    · cases h; split <;> rfl
-    · cases h
-  | rename a b =>
-    simp only [execOp] at h
-    split at h
-    · split at h
-      · cases h; rfl
-      · cases h
-    · split at h
-      · cases h; rfl
-      · cases h
-
-theorem partialOp_plan_field (A : DbAlg D) (s : FS D) (o : Op) (cut : OpCut) :
-    (partialOp A s o cut).plan = s.plan := by
-  have hmod : ∀ (t : FS D) n f, (t.modify n f).plan = t.plan := by
-    intro t n f; unfold FS.modify; split <;> rfl
-  have hrm : ∀ n t t', ckptRemove A t n = .ok t' → t'.plan = t.plan := by
-    intro n t t' ht
-    unfold ckptRemove at ht
-    split at ht
-    · split at ht
-      · cases ht; rfl
-      · cases ht
-      · cases ht; rfl
-    · cases ht
-  cases o <;> cases cut <;> simp only [partialOp, hmod]
-  rename_i n ws lo j stage
-  have hmv : ∀ (t : FS D) (q : Nat × Nat), (moveWal t q n).plan = t.plan := fun t q => (moveWal_fields t q n).2.1
-  have hloop : ∀ l j t, (ckptLoopCut A n l j stage t).plan = t.plan := by
-    intro l
-    induction l with
-    | nil => intro j t; rfl
-    | cons q l ih =>
-      intro j t
-      cases j with
-      | zero =>
-        simp only [ckptLoopCut]
-        split
-        · rfl
-        · split
-          · exact hmv _ _
-          · simp only [ckptApplyOnly, hmod, hmv]
-      | succ j =>
-        simp only [ckptLoopCut]
-        cases h1 : ckptRemove A (moveWal t q n) n with
-        | error e => exact hmv _ _
-        | ok t1 => simp only; rw [ih, hrm _ _ _ h1, hmv]
-  split
-  · simp only [ckptApplyOnly, hmod]
-  · split
-    · rfl
-    · rename_i s1 hs1
-      have e1 : s1.plan = s.plan := by
-        split at hs1
-        · exact hrm _ _ _ hs1
-        · cases hs1; rfl
-      split
-      · exact e1
-      · split
-        · exact e1
-        · rw [hloop, e1]
-
-theorem runCut_plan_field (A : DbAlg D) (ops : List Op) (cut : OpCut) :
-    ∀ (k : Nat) (s : FS D), (runCut A ops k cut s).plan = s.plan := by
-  induction ops with
-  | nil => intro k s; cases k <;> rfl
-  | cons o ops ih =>
-    intro k s
-    cases k with
-    | zero => exact partialOp_plan_field A s o cut
-    | succ k =>
-      simp only [runCut]
-      cases h : execOp A s o with
-      | error e => rfl
-      | ok s' => simp only; rw [ih, execOp_plan_field A s s' o h]
+theorem runCut_plan_field (A : DbAlg D) (ops : List Op) (cut : OpCut) (k : Nat) (s : FS D) :
+    (runCut A ops k cut s).plan = s.plan := (runCut_same A ops cut k s).1
 
 /-- The plan file is in place before anything is changed: in every state an interrupted reap can
 leave, either REAP_PLAN holds the complete plan, or no directory has been touched, or the reap
